@@ -216,11 +216,11 @@ def streamData (file : Bytes) (decodedAt : Nat → Option Bytes) (d : List (Byte
 
 /-- the `getInt` of a scanner made while the cross-reference table is still empty: only direct
     integers (and what `asInteger` makes of a reference to nothing, a null or a real) -/
-def getIntNoXref : Obj → Option Int
-  | .int n => some n
-  | .null => some 0
-  | .ref _ _ => some 0
-  | _ => none
+def getIntNoXref : Obj → Except Err Int
+  | .int n => .ok n
+  | .null => .ok 0
+  | .ref _ _ => .ok 0
+  | _ => .error .malformed
 
 /-- `readXRefStream`: new map and the stream dictionary -/
 def readXRefStream (file : Bytes) (decodedAt : Nat → Option Bytes) (m : XMap) (pos : Nat) :
@@ -369,6 +369,46 @@ def openFile (file : Bytes) (decodedAt : Nat → Option Bytes) : Except Err Open
       | .error e => .error e
       | .ok st => .ok { hdr := hdr, xref := st.xref, trailer := (st.trailer.getD []) }
 
+/-- longest prefix whose bytes satisfy `p`, and the rest -/
+def spanBy (p : Nat → Bool) : Bytes → Bytes × Bytes
+  | [] => ([], [])
+  | c :: cs => if p c then let (a, b) := spanBy p cs; (c :: a, b) else ([], c :: cs)
+
+/-- `referenceTail` (reader.go, library HEAD 444f7d4): do the bytes `buf` behind the integer `a`
+    complete an indirect reference `a g R`?  White space, one to six digits (a seventh digit makes
+    the white-space test behind the digits fail), white space, `R`, then the end of the window or
+    a non-regular byte; `a` and `g` in range. -/
+def referenceTail (a : Int) (buf : Bytes) : Option (Nat × Nat) :=
+  let (ws1, r1) := spanBy isSpace buf
+  if ws1.isEmpty then none else
+  let (ds, r2) := spanBy isDigit r1
+  let (ws2, r3) := spanBy isSpace r2
+  if ds.isEmpty || ds.length > 6 || ws2.isEmpty then none else
+  match r3 with
+  | 82 :: r4 =>
+    let follows : Bool := match r4 with
+      | [] => true
+      | c :: _ => !isRegular c
+    let b := digitsVal ds 0
+    if !follows then none
+    else if a < 0 || a ≥ Gen.his_xref_maxXRefSize || b > Gen.his_xref_maxGeneration then none
+    else some (a.toNat, b)
+  | _ => none
+
+/-- the look-ahead `getFromObjStm` applies to a member that was read as the integer `a`: the
+    window is 64 bytes, cut at the offset of the next member (the smallest index offset greater
+    than this member's), `memberEnd` is where the integer ended -/
+def memberValue (data : Bytes) (offsAbs : List Nat) (target memberEnd : Nat) (a : Int) : Obj :=
+  let later := offsAbs.filter (fun x => x > target)
+  let avail : Int :=
+    match later with
+    | [] => 64
+    | x :: xs => min 64 ((xs.foldl min x : Nat) - (memberEnd : Int))
+  if avail ≤ 0 then .int a else
+  match referenceTail a ((data.drop memberEnd).take avail.toNat) with
+  | some (n, g) => .ref n g
+  | none => .int a
+
 /-- the `N` pairs of integers at the start of an object stream (`getObjStm`) -/
 def readIndex : Nat → Bytes → List (Nat × Nat) → Except Err (List (Nat × Nat) × Bytes)
   | 0, inp, acc => .ok (acc.reverse, inp)
@@ -399,31 +439,32 @@ def readerGet (file : Bytes) (o : Opened) (decodedAt : Nat → Option Bytes) :
         | .error .eof => .error .other      -- wrapped by the deferred `Wrap`
         | .error err => .error err
         | .ok ind => if ind.num != num || ind.gen != gen then .error .malformed else .ok ind.val
-/-- `safeGetInteger(lengthGetter{r}, canObjStm)`: `none` = error -/
+/-- `safeGetInteger(lengthGetter{r}, canObjStm)`: the integer, or the error class (`asInteger` and
+    the cycle check make malformed-file errors; an error of `Reader.get` is handed on) -/
 def resolveInt (file : Bytes) (o : Opened) (decodedAt : Nat → Option Bytes) :
-    Nat → (canObjStm : Bool) → Obj → Option Int
-  | 0, _, _ => none
+    Nat → (canObjStm : Bool) → Obj → Except Err Int
+  | 0, _, _ => .error .other
   | fuel+1, canObjStm, obj =>
     match obj with
-    | .int n => some n
+    | .int n => .ok n
     | .ref n g =>
       match resolveRef file o decodedAt fuel canObjStm [] n g with
-      | some (.obj (.int i)) => some i
-      | some (.obj .null) => some 0
-      | some (.obj (.real _)) => none      -- rounding of reals is not modelled (never generated)
-      | _ => none
-    | .null => some 0
-    | _ => none
+      | .ok (.obj (.int i)) => .ok i
+      | .ok (.obj .null) => .ok 0
+      | .ok _ => .error .malformed         -- rounding of reals is not modelled (never generated)
+      | .error e => .error e
+    | .null => .ok 0
+    | _ => .error .malformed
 /-- the loop of `resolvePath` through `lengthGetter` (scalar-only reads) -/
 def resolveRef (file : Bytes) (o : Opened) (decodedAt : Nat → Option Bytes) :
-    Nat → (canObjStm : Bool) → List (Nat × Nat) → (num gen : Nat) → Option Val
-  | 0, _, _, _, _ => none
+    Nat → (canObjStm : Bool) → List (Nat × Nat) → (num gen : Nat) → Except Err Val
+  | 0, _, _, _, _ => .error .other
   | fuel+1, canObjStm, seen, num, gen =>
-    if seen.contains (num, gen) then none else
+    if seen.contains (num, gen) then .error .malformed else
     match readerGet file o decodedAt fuel num gen canObjStm true with
-    | .error _ => none
+    | .error e => .error e
     | .ok (.obj (.ref n g)) => resolveRef file o decodedAt fuel canObjStm ((num, gen) :: seen) n g
-    | .ok v => some v
+    | .ok v => .ok v
 /-- `getFromObjStm` -/
 def fromObjStm (file : Bytes) (o : Opened) (decodedAt : Nat → Option Bytes) :
     Nat → (num stmNum : Nat) → Except Err Val
@@ -458,6 +499,8 @@ def fromObjStm (file : Bytes) (o : Opened) (decodedAt : Nat → Option Bytes) :
                   match readObject (objFuel data) 0 (data.drop target) with
                   | .error .eof => .error .other
                   | .error e => .error e
+                  | .ok (.int a, r) =>
+                    .ok (.obj (memberValue data (idx.map fun p => p.2 + first.toNat) target (data.length - r.length) a))
                   | .ok (v, _) => .ok (.obj v)
             | _ => .error .malformed
       | _ => .error .malformed
